@@ -823,23 +823,6 @@ theorem zip_completion_late :
     ∃ H, WellFormed 2 H ∧ zipRxCompletes 2 H = true ∧ Ev.complete ∉ zip.run 2 H :=
   ⟨[(0, .next (.int 1)), (1, .next (.int 10)), (0, .complete)], by decide, by decide, by decide⟩
 
-/-! ### combine_latest: the code is NOT the ReactiveX operator (sequence_equal was one too — finding F10 — until
-its repair: see `sequence_equal_spec` below) -/
-
-/-- a1 a2 b10 b20 a3: ReactiveX emits [2,10] [2,20] [3,20]; the code (zip!) emits [1,10] [2,20] -/
-theorem combine_latest_violated :
-    ∃ H, WellFormed 2 H ∧ combineLatestCode.run 2 H ≠ combineLatestSpec 2 H :=
-  ⟨[(0, .next (.int 1)), (0, .next (.int 2)), (1, .next (.int 10)), (1, .next (.int 20)), (0, .next (.int 3))],
-    by decide, by decide⟩
-
-example :
-    combineLatestCode.run 2
-        [(0, .next (.int 1)), (0, .next (.int 2)), (1, .next (.int 10)), (1, .next (.int 20)), (0, .next (.int 3))] =
-      [tupleEv [.int 1, .int 10], tupleEv [.int 2, .int 20]] ∧
-    combineLatestSpec 2
-        [(0, .next (.int 1)), (0, .next (.int 2)), (1, .next (.int 10)), (1, .next (.int 20)), (0, .next (.int 3))] =
-      [tupleEv [.int 2, .int 10], tupleEv [.int 2, .int 20], tupleEv [.int 3, .int 20]] := by decide
-
 /-! ### skip_until -/
 
 theorem skipUntil_dead (s : skipUntil.State) (H : History) (h : s.ctl.alive = false) :
@@ -1804,71 +1787,6 @@ def mapEv (f : List Data → Data) : Ev → Ev
   | .next v => .next (f v.toList)
   | ev => ev
 
-theorem cl_feed_dead (f : List Data → Data) (o : Ctl) (evs : List Ev) (ho : o.isLive 0 = false) :
-    combineLatestCode.feed f o evs = (o, []) := by
-  induction evs with
-  | nil => rfl
-  | cons ev evs ih => simp only [combineLatestCode.feed, ho, Bool.false_eq_true, if_false, ih]
-
-theorem cl_feed_next (f : List Data → Data) (evs : List Ev) (h : evs.all Ev.isNext = true) :
-    combineLatestCode.feed f (Ctl.init 1) evs = (Ctl.init 1, evs.map (mapEv f)) := by
-  induction evs with
-  | nil => rfl
-  | cons ev evs ih =>
-    simp only [List.all_cons, Bool.and_eq_true] at h
-    have hl : (Ctl.init 1).isLive 0 = true := by decide
-    cases ev with
-    | next v =>
-      have hs : ∀ d, (Ctl.init 1).sinkNext d = (Ctl.init 1, [.next d]) := fun d => rfl
-      simp only [combineLatestCode.feed, hl, if_true, hs, ih h.2, List.map_cons, mapEv, List.singleton_append]
-    | error e => simp at h
-    | complete => simp at h
-
-theorem cl_feed_term (f : List Data → Data) (t : Ev) (ht : t.isTerminal = true) :
-    (combineLatestCode.feed f (Ctl.init 1) [t]).2 = [t] ∧
-      (combineLatestCode.feed f (Ctl.init 1) [t]).1.isLive 0 = false := by
-  cases t with
-  | next d => simp at ht
-  | error e => exact ⟨rfl, rfl⟩
-  | complete => exact ⟨rfl, rfl⟩
-
-theorem cl_dead (f : List Data → Data) (s : Over) (H : History) (h : s.Dead) :
-    runFrom (combineLatestCode.step f) s H = [] := by
-  induction H generalizing s with
-  | nil => rfl
-  | cons p H ih =>
-    have hz := zip_step_dead s.z p h.2
-    simp only [runFrom, combineLatestCode.step, hz.1, combineLatestCode.feed, List.nil_append]
-    exact ih _ (sync_dead _ _ h.1)
-
-theorem cl_ok (f : List Data → Data) (s : Over) (H : History) (h : s.Ok) :
-    runFrom (combineLatestCode.step f) s H = (runFrom zip.step s.z H).map (mapEv f) := by
-  induction H generalizing s with
-  | nil => rfl
-  | cons p H ih =>
-    obtain ⟨z, o⟩ := s
-    obtain ⟨ho, hz⟩ := h
-    simp only at ho hz
-    subst ho
-    simp only [runFrom, combineLatestCode.step, List.map_append]
-    rcases zip_step_shape z p hz with ⟨hn, ha⟩ | ⟨t, ht, hout, ha⟩
-    · rw [cl_feed_next f _ hn]
-      simp only
-      rw [ih _ (sync_ok _ ha)]
-      have : ((Over.sync (zip.step z p).1 (Ctl.init 1)).z) = (zip.step z p).1 := by
-        have hl : (Ctl.init 1).isLive 0 = true := by decide
-        simp [Over.sync, hl]
-      rw [this]
-    · rw [hout]
-      obtain ⟨h1, h2⟩ := cl_feed_term f t ht
-      rw [h1, cl_dead f _ H (sync_dead _ _ h2), zip_dead _ _ ha]
-      cases t <;> simp_all [mapEv]
-
-/-- the code of combine_latest is zip followed by `combine_f` on every tuple -/
-theorem combine_latest_code_eq_zip (k : Nat) (H : History) (f : List Data → Data) :
-    combineLatestCode.run k H f = (zip.run k H).map (mapEv f) :=
-  cl_ok f (Over.init k) H ⟨rfl, rfl⟩
-
 /-! #### sequence_equal -/
 
 /-- what the closures of sequence_equal.rs make of zip's output -/
@@ -2145,7 +2063,7 @@ theorem not_allCompleted_of_more (k : Nat) (pre : History) (p : Nat × Ev) (rest
   simp only [allCompleted, List.all_eq_true, List.mem_range] at hc
   exact wf_after_complete _ pre (p :: rest) p.1 hwf (hc p.1 hp) p (by simp) rfl
 
-/-! #### combine_latest: where the code (zip) agrees with ReactiveX -/
+/-! #### combine_latest: vocabulary of the specification -/
 
 theorem nonEmptyAll_columns (k : Nat) (X : History) :
     nonEmptyAll (columns k X) = true ↔ ∀ i, i < k → srcItems i X ≠ [] := by
@@ -2163,108 +2081,6 @@ theorem latestRow_eq (k : Nat) (X : History) :
     latestRow k X = if nonEmptyAll (columns k X) then some ((columns k X).map fun c => c.getLastD .unit)
       else none := rfl
 
-theorem clItems_single (k : Nat) (pre rest : History)
-    (hlt : ∀ p ∈ pre ++ rest, p.1 < k)
-    (hone : ∀ i, i < k → (srcItems i (pre ++ rest)).length ≤ 1) :
-    clItems k pre rest =
-      if nonEmptyAll (columns k pre) then []
-      else if nonEmptyAll (columns k (pre ++ rest)) then [tupleEv (heads (columns k (pre ++ rest)))]
-      else [] := by
-  induction rest generalizing pre with
-  | nil =>
-    simp only [clItems, List.append_nil]
-    split <;> rfl
-  | cons p rest ih =>
-    obtain ⟨i, ev⟩ := p
-    have eapp : pre ++ (i, ev) :: rest = (pre ++ [(i, ev)]) ++ rest := by simp
-    have hi : i < k := hlt (i, ev) (by simp)
-    rw [clItems_cons, ih (pre ++ [(i, ev)]) (by rw [← eapp]; exact hlt) (by rw [← eapp]; exact hone), ← eapp]
-    have hsplit : ∀ j, srcItems j (pre ++ (i, ev) :: rest) =
-        srcItems j (pre ++ [(i, ev)]) ++ srcItems j rest := by
-      intro j; rw [eapp, srcItems_append]
-    have hmono : nonEmptyAll (columns k pre) = true → nonEmptyAll (columns k (pre ++ [(i, ev)])) = true := by
-      rw [nonEmptyAll_columns, nonEmptyAll_columns]
-      intro h j hj
-      rw [srcItems_append]
-      have := h j hj
-      intro e0
-      exact this (List.append_eq_nil_iff.mp e0).1
-    have hmono2 : nonEmptyAll (columns k (pre ++ [(i, ev)])) = true →
-        nonEmptyAll (columns k (pre ++ (i, ev) :: rest)) = true := by
-      rw [nonEmptyAll_columns, nonEmptyAll_columns]
-      intro h j hj
-      rw [hsplit]
-      have := h j hj
-      intro e0
-      exact this (List.append_eq_nil_iff.mp e0).1
-    by_cases hA : nonEmptyAll (columns k pre) = true
-    · -- every source has already emitted: nobody may emit again
-      simp only [hA, hmono hA, if_true, List.append_nil]
-      cases ev with
-      | next d =>
-        exfalso
-        have h1 := (nonEmptyAll_columns k pre).mp hA i hi
-        have h2 := hone i hi
-        rw [srcItems_append, srcItems_cons] at h2
-        simp only [beq_self_eq_true, if_true, List.length_append, List.length_cons, List.length_nil] at h2
-        have : 0 < (srcItems i pre).length := List.length_pos_iff.mpr h1
-        omega
-      | error e => rfl
-      | complete => rfl
-    · have hA' : nonEmptyAll (columns k pre) = false := by simpa using hA
-      simp only [hA', Bool.false_eq_true, if_false]
-      cases ev with
-      | next d =>
-        simp only [isNext_next, if_true, latestRow_eq]
-        by_cases hB : nonEmptyAll (columns k (pre ++ [(i, Ev.next d)])) = true
-        · simp only [hB, hmono2 hB, if_true, Option.map_some, Option.toList_some, List.append_nil]
-          congr 2
-          simp only [heads, columns, List.map_map]
-          apply List.map_congr_left
-          intro j hj
-          have hj' : j < k := by simpa using hj
-          have h1 := (nonEmptyAll_columns k _).mp hB j hj'
-          have h2 := hone j hj'
-          rw [hsplit, List.length_append] at h2
-          have h3 : 0 < (srcItems j (pre ++ [(i, Ev.next d)])).length := List.length_pos_iff.mpr h1
-          have h4 : srcItems j rest = [] := List.eq_nil_of_length_eq_zero (by omega)
-          simp only [Function.comp, hsplit, h4, List.append_nil]
-          cases hs : srcItems j (pre ++ [(i, Ev.next d)]) with
-          | nil => exact absurd hs h1
-          | cons x t =>
-            have : t = [] := by
-              rw [hs] at h2; simp at h2
-              exact List.eq_nil_of_length_eq_zero (by omega)
-            subst this; rfl
-        · have hB' : nonEmptyAll (columns k (pre ++ [(i, Ev.next d)])) = false := by simpa using hB
-          simp [hB']
-      | error err =>
-        have : columns k (pre ++ [(i, Ev.error err)]) = columns k pre := by
-          simp [columns, srcItems]
-        simp [this, hA']
-      | complete =>
-        have : columns k (pre ++ [(i, Ev.complete)]) = columns k pre := by
-          simp [columns, srcItems]
-        simp [this, hA']
-
-theorem zipRows_single (cols : List (List Data)) (hne : cols ≠ []) (hone : ∀ c ∈ cols, c.length ≤ 1) :
-    zipRows cols = if nonEmptyAll cols then [heads cols] else [] := by
-  by_cases h : nonEmptyAll cols = true
-  · rw [zipRows_step cols hne h]
-    simp only [h, if_true]
-    rw [zipRows_of_not]
-    cases cols with
-    | nil => exact absurd rfl hne
-    | cons c cols =>
-      have := hone c (by simp)
-      have hc : c.tail = [] := by
-        cases c with
-        | nil => rfl
-        | cons x t => simp at this; simp [this]
-      simp [nonEmptyAll, tails, hc]
-  · have h' : nonEmptyAll cols = false := by simpa using h
-    simp [h', zipRows_of_not cols h']
-
 theorem map_mapEv_zipSpec (k : Nat) (H : History) :
     (zipSpec k H).map (mapEv Data.ofList) = zipSpec k H := by
   simp only [zipSpec, List.map_append, List.map_map]
@@ -2277,42 +2093,158 @@ theorem map_mapEv_zipSpec (k : Nat) (H : History) :
     · rfl
     · split <;> rfl
 
-/-- region of agreement of combine_latest with ReactiveX: every source emits at most one item.  (As soon as
-    one source emits a second item while another has emitted, ReactiveX re-emits and zip does not.)
-    Full statement `∀ H, WellFormed k H → combineLatestCode.run k H = combineLatestSpec k H` is FALSE:
-    `combine_latest_violated`; what the code does in general is `combine_latest_is_zip`. -/
-theorem combine_latest_single_item_partial (k : Nat) (hk : 0 < k) (H : History) (hwf : WellFormed k H)
-    (hone : ∀ i, i < k → (srcItems i H).length ≤ 1) :
-    combineLatestCode.run k H = combineLatestSpec k H := by
-  rw [combine_latest_code_eq_zip, zip_spec k hk H hwf, map_mapEv_zipSpec, zipSpec, combineLatestSpec]
-  congr 1
-  have hsplit : H = beforeError H ++ H.dropWhile (fun p => !p.2.isError) := by
-    simp [beforeError, List.takeWhile_append_dropWhile]
-  have hone' : ∀ i, i < k → (srcItems i (beforeError H)).length ≤ 1 := by
-    intro i hi
-    have := hone i hi
-    rw [hsplit, srcItems_append, List.length_append] at this
-    omega
-  have hlt' : ∀ p ∈ beforeError H, p.1 < k := fun p hp =>
-    wellFormed_lt k H hwf p (List.takeWhile_subset _ hp)
-  have hne : columns k (beforeError H) ≠ [] := by
-    intro h0; have := congrArg List.length h0; simp [columns] at this; omega
-  rw [clItems_single k [] (beforeError H) (by simpa using hlt') (by simpa using hone')]
-  rw [zipRows_single _ hne (by
-    intro c hc
-    simp only [columns, List.mem_map, List.mem_range] at hc
-    obtain ⟨i, hi, rfl⟩ := hc
-    exact hone' i hi)]
-  have h0 : nonEmptyAll (columns k []) = false := by
-    rw [Bool.eq_false_iff, Ne, nonEmptyAll_columns]
-    intro h; exact h 0 hk rfl
-  simp only [h0, Bool.false_eq_true, if_false, List.nil_append]
-  split <;> rfl
+/-! #### combine_latest after the repair of F9 -/
 
-/-- what the code of combine_latest computes in general: zip -/
-theorem combine_latest_is_zip (k : Nat) (hk : 0 < k) (H : History) (hwf : WellFormed k H) :
-    combineLatestCode.run k H = zipSpec k H := by
-  rw [combine_latest_code_eq_zip, zip_spec k hk H hwf, map_mapEv_zipSpec]
+/-- the `latest` cell after the events `pre` -/
+def latestOf (k : Nat) (pre : History) : List (Option Data) :=
+  (List.range k).map fun j => (srcItems j pre).getLast?
+
+theorem srcItems_snoc_next (j : Nat) (pre : History) (i : Nat) (d : Data) :
+    srcItems j (pre ++ [(i, .next d)]) = srcItems j pre ++ (if i == j then [d] else []) := by
+  rw [srcItems_append, srcItems_cons]; simp [srcItems]
+
+theorem latestOf_next (k : Nat) (pre : History) (i : Nat) (d : Data) :
+    (latestOf k pre).set i (some d) = latestOf k (pre ++ [(i, .next d)]) := by
+  apply List.ext_getElem?
+  intro j
+  simp only [latestOf, List.getElem?_set, List.length_map, List.length_range, List.getElem?_map]
+  by_cases hj : j < k
+  · rw [List.getElem?_range hj]
+    simp only [Option.map_some, srcItems_snoc_next]
+    by_cases e : i = j
+    · subst e; simp [hj]
+    · have : (i == j) = false := by rw [beq_eq_false_iff_ne]; exact e
+      simp [e, this]
+  · rw [List.getElem?_eq_none (by simp; omega)]
+    by_cases e : i = j
+    · subst e; simp [hj]
+    · simp [e]
+
+theorem latestOf_other (k : Nat) (pre : History) (i : Nat) (ev : Ev) (h : ev.isNext = false) :
+    latestOf k (pre ++ [(i, ev)]) = latestOf k pre := by
+  simp only [latestOf]
+  apply List.map_congr_left
+  intro j _
+  rw [srcItems_append, srcItems_cons]
+  cases ev <;> simp_all [Ev.isNext, srcItems]
+
+theorem latestOf_all (k : Nat) (X : History) :
+    (latestOf k X).all Option.isSome = (columns k X).all (fun c => !c.isEmpty) := by
+  simp only [latestOf, columns, List.all_map]
+  congr 1
+  funext j
+  simp only [Function.comp]
+  cases srcItems j X <;> simp
+
+theorem latestOf_vals (k : Nat) (X : History) :
+    (latestOf k X).map (fun x => x.getD .unit) = (columns k X).map fun c => c.getLastD .unit := by
+  simp only [latestOf, columns, List.map_map]
+  apply List.map_congr_left
+  intro j _
+  simp only [Function.comp]
+  cases h : srcItems j X with
+  | nil => rfl
+  | cons a l => simp [List.getLast?_eq_some_getLast, List.getLastD_eq_getLast?]
+
+theorem latestOf_nil (k : Nat) : latestOf k [] = List.replicate k none := by
+  apply List.ext_getElem?
+  intro j
+  by_cases hj : j < k
+  · simp [latestOf, hj, srcItems]
+  · simp [latestOf, hj]
+
+theorem cl_dead (f : List Data → Data) (s : combineLatest.State) (H : History) (h : s.ctl.alive = false) :
+    runFrom (combineLatest.step f) s H = [] := by
+  induction H generalizing s with
+  | nil => rfl
+  | cons p H ih =>
+    obtain ⟨i, ev⟩ := p
+    by_cases hlv : s.ctl.isLive i = true
+    · cases ev with
+      | next d =>
+        simp only [runFrom, combineLatest.step, hlv, if_true]
+        split
+        · simp only [Ctl.sinkNext, h, Bool.false_eq_true, if_false, List.nil_append]
+          exact ih _ (by simp [Ctl.finalize])
+        · simpa using ih { s with latest := s.latest.set i (some d) } h
+      | error e =>
+        simp only [runFrom, combineLatest.step, hlv, if_true, Ctl.sinkError, Ctl.kill, h, Bool.false_eq_true,
+          if_false, List.nil_append]
+        exact ih _ (by simp [Ctl.finalize])
+      | complete =>
+        simp only [runFrom, combineLatest.step, hlv, if_true, Ctl.sinkComplete, Ctl.kill, h, Bool.false_eq_true,
+          if_false, List.nil_append]
+        exact ih _ (by simp [Ctl.finalize])
+    · simp only [runFrom, combineLatest.step, hlv, Bool.false_eq_true, if_false, List.nil_append]
+      exact ih s h
+
+theorem cl_from (k : Nat) (s : combineLatest.State) (pre H : History) (ha : s.ctl.alive = true)
+    (hr : s.ctl.reg = s.ctl.live) (hne : s.ctl.live ≠ []) (hwf : wfFrom s.ctl.live H = true)
+    (hl : s.latest = latestOf k pre) :
+    runFrom (combineLatest.step Data.ofList) s H = clItems k pre (beforeError H) ++ terminalOf s.ctl.live H := by
+  induction H generalizing s pre with
+  | nil =>
+    simp [runFrom, terminalOf, clItems]
+    cases h : s.ctl.live with
+    | nil => exact absurd h hne
+    | cons a l => simp
+  | cons p H ih =>
+    obtain ⟨i, ev⟩ := p
+    rw [wf_cons] at hwf
+    simp only [Bool.and_eq_true] at hwf
+    obtain ⟨hi, hwf⟩ := hwf
+    simp only [runFrom, combineLatest.step, Ctl.isLive, hi, if_true]
+    cases ev with
+    | next d =>
+      have hl' : s.latest.set i (some d) = latestOf k (pre ++ [(i, .next d)]) := by rw [hl, latestOf_next]
+      have hbe : beforeError ((i, Ev.next d) :: H) = (i, .next d) :: beforeError H := by
+        simp [beforeError_cons, Ev.isError]
+      rw [hbe, clItems_cons, terminalOf_cons_next]
+      simp only [hl', latestOf_all, latestOf_vals, Ev.isNext, if_true, latestRow]
+      split
+      · simp only [Ctl.sinkNext, ha, if_true, Option.map_some, Option.toList_some, tupleEv, List.cons_append,
+          List.nil_append]
+        rw [ih { ctl := s.ctl, latest := latestOf k (pre ++ [(i, .next d)]) } (pre ++ [(i, .next d)]) ha hr hne
+          (by simpa using hwf) rfl]
+      · simp only [Option.map_none, Option.toList_none, List.nil_append]
+        rw [ih { s with latest := latestOf k (pre ++ [(i, .next d)]) } (pre ++ [(i, .next d)]) ha hr hne
+          (by simpa using hwf) rfl]
+    | error e =>
+      simp only [Ctl.sinkError, Ctl.kill, ha, if_true]
+      rw [cl_dead _ _ _ (by simp [Ctl.finalize])]
+      simp [beforeError_cons, Ev.isError, terminalOf, firstError_cons, clItems]
+    | complete =>
+      have hbe : beforeError ((i, Ev.complete) :: H) = (i, .complete) :: beforeError H := by
+        simp [beforeError_cons, Ev.isError]
+      have hl' : s.latest = latestOf k (pre ++ [(i, .complete)]) := by
+        rw [hl, latestOf_other k pre i .complete rfl]
+      simp only [Ctl.sinkComplete, Ctl.kill, ha, if_true]
+      simp only [isTerminal_complete, if_true] at hwf
+      rw [terminalOf_cons_complete, hbe, clItems_cons]
+      simp only [Ev.isNext, Bool.false_eq_true, if_false, List.nil_append]
+      split
+      · rename_i hemp
+        rw [cl_dead _ _ _ (by simp [Ctl.finalize])]
+        have hnil : s.ctl.live.filter (· != i) = [] := by rw [← hr]; simpa using hemp
+        rw [hnil] at hwf ⊢
+        rw [wf_nil H hwf]
+        simp [clItems, terminalOf]
+      · rename_i hemp
+        have hne' : s.ctl.live.filter (· != i) ≠ [] := by
+          intro h0; apply hemp; rw [hr, h0]; rfl
+        simp only [List.nil_append]
+        rw [ih { ctl := ⟨true, s.ctl.reg.filter (· != i), s.ctl.live.filter (· != i)⟩, latest := s.latest }
+          (pre ++ [(i, .complete)]) rfl (by simp [hr]) hne' hwf hl']
+
+/-- **combine_latest** (after the repair of F9): for every well-formed history over `k ≥ 1` hot sources the code is
+    the ReactiveX operator — on each item, once every source has emitted, the tuple of the latest item of every
+    source (a completed source keeps its latest value); the first error ends the output at once; it completes when
+    the last source completes. -/
+theorem combine_latest_spec (k : Nat) (hk : 0 < k) (H : History) (hwf : WellFormed k H) :
+    combineLatest.run k H = combineLatestSpec k H := by
+  have := cl_from k (combineLatest.init k) [] H rfl rfl (by simp [combineLatest.init, Ctl.init]; omega) hwf
+    (by rw [latestOf_nil]; rfl)
+  simpa [combineLatest.run, combineLatestSpec, combineLatest.init, Ctl.init] using this
 
 /-! ### what `WellFormed` means, declaratively -/
 
@@ -2614,10 +2546,19 @@ example : WellFormed 2 [(0, n 1), (1, n 1), (0, n 2), (1, n 3), (0, .complete), 
     (∀ i, i < 2 → (srcItems i [(0, n 1), (1, n 1), (0, n 2), (1, n 3), (0, .complete), (1, .complete)]).length = 2) ∧
     sequenceEqualCode.run 2 [(0, n 1), (1, n 1), (0, n 2), (1, n 3), (0, .complete), (1, .complete)] =
       [.next (.bool false), .complete] := by decide
-example : WellFormed 2 [(0, n 1), (1, n 2), (0, .complete), (1, .complete)] ∧
-    (∀ i, i < 2 → (srcItems i [(0, n 1), (1, n 2), (0, .complete), (1, .complete)]).length ≤ 1) ∧
-    combineLatestCode.run 2 [(0, n 1), (1, n 2), (0, .complete), (1, .complete)] =
-      [tupleEv [.int 1, .int 2], .complete] := by decide
+/-! combine_latest after the repair of F9: a1 a2 b10 b20 a3 ⇒ (2,10) (2,20) (3,20); a source that has completed keeps
+    its latest value; an error ends at once; a source completing without an item ⇒ nothing is ever emitted -/
+example : WellFormed 2 [(0, n 1), (0, n 2), (1, n 10), (1, n 20), (0, n 3), (0, .complete), (1, n 30), (1, .complete)] ∧
+    combineLatest.run 2 [(0, n 1), (0, n 2), (1, n 10), (1, n 20), (0, n 3), (0, .complete), (1, n 30), (1, .complete)] =
+      [tupleEv [.int 2, .int 10], tupleEv [.int 2, .int 20], tupleEv [.int 3, .int 20], tupleEv [.int 3, .int 30],
+       .complete] ∧
+    combineLatestSpec 2
+        [(0, n 1), (0, n 2), (1, n 10), (1, n 20), (0, n 3), (0, .complete), (1, n 30), (1, .complete)] =
+      [tupleEv [.int 2, .int 10], tupleEv [.int 2, .int 20], tupleEv [.int 3, .int 20], tupleEv [.int 3, .int 30],
+       .complete] := by decide
+example : combineLatest.run 2 [(0, n 1), (1, n 10), (1, .error 7), (0, n 2)] = [tupleEv [.int 1, .int 10], .error 7] ∧
+    combineLatest.run 2 [(0, .complete), (1, n 10), (1, n 20), (1, .complete)] = [.complete] ∧
+    combineLatestSpec 2 [(0, .complete), (1, n 10), (1, n 20), (1, .complete)] = [.complete] := by decide
 /-! sequence_equal after the repair: a=1, a completes, b=1, b=2: undecided after `b 1`, `false` at `b 2` (b's second
     item meets a's end); equal sequences ⇒ `true` at the last completion; two empty sequences ⇒ `true`; an error first
     ⇒ that error; three sources: the position must be reached by all of them -/
@@ -2649,13 +2590,10 @@ end Examples
 #print axioms zip_timing
 #print axioms zipRows_getElem?
 #print axioms zip_completion_late
-#print axioms combine_latest_violated
+#print axioms combine_latest_spec
 #print axioms skip_until_spec
 #print axioms sample_spec
 #print axioms flat_map_spec
-#print axioms combine_latest_code_eq_zip
-#print axioms combine_latest_is_zip
-#print axioms combine_latest_single_item_partial
 #print axioms sequence_equal_code_eq
 #print axioms sequence_equal_run_eq
 #print axioms sequence_equal_spec
